@@ -245,6 +245,7 @@ CHECKS["C13"] = {
     "level_text": "Generated histories against a reference model: a handler starts only for a complete, well-formed header block on a new, odd, strictly increasing stream id within the advertised limit, and exactly once; legal frames draw no RST_STREAM/GOAWAY; illegal frames draw an error from the admissible set (escalation to a connection error admitted, hardening reactions admitted as 'any connection error'); GOAWAY's last-stream-id covers every handled request; after an error GOAWAY no handler starts and the connection closes within 2 s of fake time; PING and SETTINGS are acknowledged.",
     "level_note": "Trusted: the model in harness/c13 (admissible sets per (state, frame), DESIGN Appendix A, corrected in section 6 where it proved stricter than the RFC). Where the RFC leaves the reaction open (frames on a stream the server itself reset, connection-specific header fields) the whole set is admitted.",
     "assumptions": ["flow control is kept legal (C12 covers it)", "client GOAWAY and frames above the server's MAX_FRAME_SIZE are not generated"],
-    "units": [{"name": "c13", "pkg": "c13", "run": "^Test", "shards": 12}],
-    "expect_checks": ["c13.model"],
+    "units": [{"name": "c13", "pkg": "c13", "run": "^Test", "shards": 12},
+              {"name": "c13y", "pkg": "c13y", "run": "^Test", "shards": 6, "instrument": ["serve-yield"]}],
+    "expect_checks": ["c13.model", "c13.slot-reuse"],
 }
